@@ -33,7 +33,7 @@ pub fn drive(t: &mut Tracer, r: &mut Rng, n: usize) {
                 let inc = if u == "day" { 1 } else { *r.pick(&time_incs(u)) };
                 t.call("PlainDateTime.round", json!({"recv": dt_json(d, tn), "st": {"smallest": u, "inc": inc, "mode": *r.pick(&MODES)}})); }
             7 => { let d = if r.chance(1, 2) { MIN_DAY + r.range(0, 1) } else { MAX_DAY };
-                t.call(if r.chance(1, 2) { "PlainDate.toPlainDateTime" } else { "PlainDateTime.fromDateAndTime" }, json!({"recv": date_json(d), "time": time_json(edge_tns(r))}));
+                t.call(*r.pick(&["PlainDate.toPlainDateTime", "PlainDateTime.fromDateAndTime", "PlainDateTime.withTime"]), json!({"recv": date_json(d), "time": time_json(edge_tns(r))}));
                 t.call("PlainDate.epochNsUtc", json!({"recv": date_json(d)})); }
             8 => { let v = (if r.chance(1, 2) { MAX_INSTANT } else { -MAX_INSTANT }) + r.range(-3, 3) as i128;
                 t.call(if r.chance(1, 2) { "Instant.new" } else { "ZonedDateTime.new" }, json!({"ns": big(v)}));
